@@ -33,6 +33,8 @@ type UnitResult struct {
 	CanaryOK      int
 	CanaryBad     int // return paths whose path condition is unsatisfiable (vacuity)
 	CanaryUnknown int
+	CallVacuous   []string // call sites whose contract application makes a feasible path infeasible
+	CallProbesOK  int
 }
 
 func (v *Verifier) newUnit(fn *ssa.Function, opts UnitOpts) *Unit {
@@ -49,6 +51,7 @@ func (v *Verifier) newUnit(fn *ssa.Function, opts UnitOpts) *Unit {
 		closures: map[string]*closureVal{}, modsCache: map[*ssa.BasicBlock]*loopMods{}, activeCands: map[*ActiveLoop][]*candidate{},
 		UseCands: opts.UseCands, WantTerm: opts.WantTerm, specDefs: map[string]*specDef{}, heapElemTypes: map[string]types.Type{},
 		globalInit: map[*ssa.Global]*Term{}, siteOrd: map[ssa.Instruction]map[string]int{}}
+	u.SafetyOnly = opts.SafetyOnly
 	u.Pkg = fn.Pkg
 	if u.Pkg == nil && fn.Parent() != nil {
 		p := fn
@@ -239,6 +242,44 @@ func (v *Verifier) VerifyFunc(fn *ssa.Function, opts UnitOpts, so *SolveOpts) *U
 			}
 		}
 	}
+	if res.Refused == "" && len(u.CallProbes) > 0 {
+		// call-site vacuity probes: `after` unsat while `before` sat
+		pso := *so
+		pso.Timeout = 3 * time.Second
+		pso.FirstTry = 1 * time.Second
+		pso.WantModel = false
+		var sites []string
+		for k, p := range u.CallProbes {
+			if p.After != nil {
+				sites = append(sites, k)
+			}
+		}
+		sort.Strings(sites)
+		var after []*Obligation
+		for _, k := range sites {
+			after = append(after, &Obligation{Name: "probe-after:" + k, Queries: []*Query{u.CallProbes[k].After}})
+		}
+		SolveAll(after, u.W.Prelude(), &pso)
+		var before []*Obligation
+		var bsites []string
+		for _, k := range sites {
+			if u.CallProbes[k].After.Result == "unsat" {
+				before = append(before, &Obligation{Name: "probe-before:" + k, Queries: []*Query{u.CallProbes[k].Before}})
+				bsites = append(bsites, k)
+			} else if u.CallProbes[k].After.Result == "sat" {
+				res.CallProbesOK++
+			}
+		}
+		if len(before) > 0 {
+			pso.Timeout = 10 * time.Second
+			SolveAll(before, u.W.Prelude(), &pso)
+			for _, k := range bsites {
+				if u.CallProbes[k].Before.Result == "sat" {
+					res.CallVacuous = append(res.CallVacuous, k)
+				}
+			}
+		}
+	}
 	res.Obligations = obls
 	res.Seconds = time.Since(start).Seconds()
 	return res
@@ -254,6 +295,9 @@ func (r *UnitResult) Summary() string {
 	}
 	fmt.Fprintf(&sb, "%s: %d/%d obligations discharged, paths=%d rounds=%d cands=%d kept/%d dropped canaries ok=%d bad=%d unk=%d (%.1fs)",
 		shortKey(r.Key), ok, len(r.Obligations), r.Unit.Paths, r.Rounds, r.CandsKept, r.CandsDropped, r.CanaryOK, r.CanaryBad, r.CanaryUnknown, r.Seconds)
+	for _, k := range r.CallVacuous {
+		fmt.Fprintf(&sb, "\n  VACUOUS CALL: %s — the callee's contract contradicts the caller's state (feasible before, infeasible after)", k)
+	}
 	if r.Refused != "" {
 		fmt.Fprintf(&sb, " REFUSED: %s", r.Refused)
 	}
